@@ -210,12 +210,36 @@ def obligations : List Lean.Name := [
   ``compare_config_mode_only_asa, ``approve_is_not_readonly, ``NA.C11.ro_ext, ``NA.C11.recvLoop_ext,
   ``block_checked, ``compare_config_block, ``compare_never_in_config_mode, ``compare_leaves_config_mode, ``bad_absorbing,
   ``approve_block_is_bad, ``NA.C11.T_sound,
-  -- the tie of the session programs on the compare path to the source (regenerated skeletons)
+  -- the tie of the session programs on the compare path to the source (regenerated skeletons):
+  -- C09's theorems for everything reachable from compare — front ends, ApproveOrCompare / compare /
+  -- compareDevice / showCompareInfo, HandleAbort / Abort, the pkg/console primitives, the login
+  -- dialogues, LoadDevice and its helpers of all five backends, the HTTP helpers, every CloseConnection
   ``NA.C09.skel_device_ApproveOrCompare, ``NA.C09.skel_device_compare, ``NA.C09.skel_device_compareDevice,
-  ``NA.C09.skel_device_showCompareInfo, ``NA.C09.skel_console_Send, ``NA.C09.skel_console_SendCmd,
-  ``NA.C09.skel_console_IssueCmd, ``NA.C09.skel_console_GetCmdOutput, ``NA.C09.skel_console_Close,
-  ``NA.C09.skel_panos_httpGet, ``NA.C09.skel_panos_httpPrefixGetLog, ``NA.C09.skel_nsx_sendRequest,
-  ``NA.C09.skel_asa_CloseConnection, ``NA.C09.skel_ios_CloseConnection, ``NA.C09.skel_linux_CloseConnection,
-  ``NA.C09.skel_panos_CloseConnection, ``NA.C09.skel_nsx_CloseConnection]
+  ``NA.C09.skel_device_showCompareInfo, ``NA.C09.skel_errlog_HandleAbort, ``NA.C09.skel_errlog_Abort,
+  ``NA.C09.skel_doapprove_Main, ``NA.C09.skel_status_SetCompare, ``NA.C09.skel_console_Send,
+  ``NA.C09.skel_console_SendCmd, ``NA.C09.skel_console_IssueCmd, ``NA.C09.skel_console_GetCmdOutput,
+  ``NA.C09.skel_console_GetOutput, ``NA.C09.skel_console_waitPrompt, ``NA.C09.skel_console_WaitShort,
+  ``NA.C09.skel_console_WaitLogin, ``NA.C09.skel_console_expectLog, ``NA.C09.skel_console_StripEcho,
+  ``NA.C09.skel_console_StripStdPrompt, ``NA.C09.skel_console_Close, ``NA.C09.skel_cisco_LoginEnable,
+  ``NA.C09.skel_cisco_LoginEnable_waitPrompt, ``NA.C09.skel_httpdevice_TryReachableHTTPLogin,
+  ``NA.C09.skel_asa_LoadDevice, ``NA.C09.skel_asa_setTerminal, ``NA.C09.skel_asa_logVersion,
+  ``NA.C09.skel_asa_checkDeviceName, ``NA.C09.skel_asa_CloseConnection, ``NA.C09.skel_ios_LoadDevice,
+  ``NA.C09.skel_ios_setTerminal, ``NA.C09.skel_ios_logVersion, ``NA.C09.skel_ios_checkDeviceName,
+  ``NA.C09.skel_ios_CloseConnection, ``NA.C09.skel_linux_LoadDevice, ``NA.C09.skel_linux_loginEnable,
+  ``NA.C09.skel_linux_logVersion, ``NA.C09.skel_linux_checkDeviceName, ``NA.C09.skel_linux_checkBanner,
+  ``NA.C09.skel_linux_getDeviceRoutes, ``NA.C09.skel_linux_getDeviceIPTables, ``NA.C09.skel_linux_CloseConnection,
+  ``NA.C09.skel_panos_LoadDevice, ``NA.C09.skel_panos_getAPIKey, ``NA.C09.skel_panos_checkHA,
+  ``NA.C09.skel_panos_httpPrefixGetLog, ``NA.C09.skel_panos_httpGet, ``NA.C09.skel_panos_CloseConnection,
+  ``NA.C09.skel_nsx_LoadDevice, ``NA.C09.skel_nsx_getRawJSON, ``NA.C09.skel_nsx_sendRequest,
+  ``NA.C09.skel_nsx_CloseConnection]
+
+def isC09 : Lean.Name → Bool
+  | .str p _ => p == `NA.C09
+  | _ => false
+
+/-- the skeleton theorems listed above are in C09's list of everything reachable from compare
+(`NA.C09.comparePathSkel`, maintained next to the theorems), and there are 51 of them -/
+example : (obligations.filter isC09).all NA.C09.comparePathSkel.contains = true ∧
+    (obligations.filter isC09).length = 51 := by decide
 
 end NA.C11S
